@@ -25,6 +25,30 @@ Theorem C18_history_independent : forall ops h o, model_of (run ops h) o = model
 Proof. exact history_independent. Qed.
 Print Assumptions C18_history_independent.
 
+(* refused constructions (ValueError): wherever the constructor stops, the caller's heap is what it was; histories that mix
+   completed and refused constructions leave the heap alone and the next model is the one built from the initial heap *)
+Theorem C18_refused_construction_frame : forall h o n, refused_step h o n = h.
+Proof. exact refused_frame. Qed.
+Print Assumptions C18_refused_construction_frame.
+Theorem C18_frame_histories_with_refusals : forall evs h, ev_run evs h = h.
+Proof. exact ev_run_frame. Qed.
+Print Assumptions C18_frame_histories_with_refusals.
+Theorem C18_history_independent_with_refusals : forall evs h o, model_of (ev_run evs h) o = model_of h o.
+Proof. exact ev_history_independent. Qed.
+Print Assumptions C18_history_independent_with_refusals.
+(* why refused steps need their own snapshot comparison: a summary that tags the caller's graph in place and untags it
+   afterwards ([inplace_tag], not the current code) passes every comparison around completed constructions ... *)
+Theorem C18_inplace_tagging_invisible_when_completed : forall h o, ~ In 1 (h_graph h) -> completed_gen opts_hold inplace_tag h o = h.
+Proof. exact inplace_tag_completed_invisible. Qed.
+Print Assumptions C18_inplace_tagging_invisible_when_completed.
+(* ... and fails the frame for a construction refused between tagging and untagging; so did the old dict handling *)
+Theorem C18_inplace_tagging_refused_refuted : exists h o n, ~ In 1 (h_graph h) /\ refused_gen opts_hold inplace_tag h o n <> h.
+Proof. exact inplace_tag_refused_refuted. Qed.
+Print Assumptions C18_inplace_tagging_refused_refuted.
+Theorem C18_old_refused_refuted : exists h o n, refused_gen old_opts_hold no_tag h o n <> h.
+Proof. exact old_refused_refuted. Qed.
+Print Assumptions C18_old_refused_refuted.
+
 (* independent of the particular summary (old or new): only optimization_options could ever be touched, and no caller key
    is ever removed — graph, solver options, constraint / ignore lists, starts/ends and default objects keep their values *)
 Theorem C18_only_optimization_options_can_be_touched : forall hold_of ops h,
